@@ -6,6 +6,7 @@ CONSTANTS
   Data <- DataFull
   SemW = 16
   FixedMask = FALSE
+    FixedReentry = TRUE
   Junk = {0}
   Sides = {"fc", "fd"}
 SPECIFICATION TraceSpec
